@@ -62,6 +62,10 @@ pub fn install_panic_hook() {
 
 /// Location with the absolute repository prefix removed and the message without run-specific numbers.
 fn normalise_loc(loc: &str) -> String {
+  if !loc.starts_with('/') {
+    // the harness crate is compiled with relative paths; the library and registry crates with absolute ones
+    return format!("harness:{loc}");
+  }
   let l = loc.trim_start_matches("/repo/");
   if let Some(i) = l.find("/.cargo/registry/src/") {
     let rest = &l[i + "/.cargo/registry/src/".len()..];
@@ -484,7 +488,14 @@ pub fn finish(ctx: Ctx, meta: EvidenceMeta) -> Outcome {
   let mut seen: HashSet<String> = HashSet::new();
   let mut lines: Vec<String> = vec![];
   let _ = std::fs::create_dir_all(dir.join("replays"));
+  let mut harness_bug = false;
   for f in &all_found {
+    if f.sig.contains(":panic:harness:") {
+      // a panic inside the harness's own code is a bug of the check, never a violation of the property
+      println!("INCONCLUSIVE: harness bug in {}: {}", f.sub, f.detail.chars().take(300).collect::<String>());
+      harness_bug = true;
+      continue;
+    }
     if !seen.insert(f.sig.clone()) {
       continue;
     }
@@ -550,6 +561,9 @@ pub fn finish(ctx: Ctx, meta: EvidenceMeta) -> Outcome {
     seen.len(),
     wall
   );
+  if exit_code == 0 && harness_bug {
+    exit_code = 2;
+  }
   if exit_code == 0 && aborted {
     println!("INCONCLUSIVE: a generator aborted (too many rejections)");
     exit_code = 2;
